@@ -844,6 +844,17 @@ def policy(repo, tier):
                         # not contained at the call itself: follow the value through the package (interprocedural taint)
                         ok, why2, _v, definite = FL.taint_verdict(mods, index, rel, q, fnode, n)
                         why = f"{c}: {why2}"
+                    elif not ok and isinstance(n.func, ast.Name) and n.func.id in ("id", "hash"):
+                        # an identity / salted hash that leaves the recognised key-only shapes: when the value itself (through
+                        # value-preserving steps: arithmetic, formatting, containers, helper returns) reaches a result, that is a
+                        # definite flow -- hash() of str / bytes / tuples differs per process (PYTHONHASHSEED), id() per allocation.
+                        # A flow only through library calls, or none found, stays `unknown` (the replayer decides).
+                        ok2, why2, _v, dfn2 = FL.taint_verdict(mods, index, rel, q, fnode, n)
+                        if not ok2 and dfn2 and not (n.func.id == "hash" and _evidently_numeric(n.args[0] if n.args else None)):
+                            definite = True
+                            why = f"{why}; {n.func.id}() {why2}"
+                        elif not ok2:
+                            why = f"{why}; {why2}"
                 except Exception as e:  # noqa -- unexpected shape: the replayer decides
                     ok, why = False, f"analysis failed on this shape ({type(e).__name__}: {e})"[:200]
                 # identity keys / the encrypt-wrapper allowance are recognised by shape: not recognised = unknown, never a refutation
@@ -871,6 +882,15 @@ def policy(repo, tier):
         fns.append({"function": f"{sorted(d)[0][0]}::<{len(d)} functions with {fam} obligations: " + ", ".join(q for (_r, q) in sorted(d))[:400] + ">",
                     "lines": [1, 1], "file_sha256": digest, "segment_sha256": digest, "obligations": sum(d.values())})
     return {"obligations": obls, "functions": fns}
+
+
+def _evidently_numeric(e):
+    """hash() of an int / bool is the number itself (deterministic); recognised: numeric literals, len() / int() / ord() / bool() calls."""
+    if isinstance(e, ast.Constant):
+        return isinstance(e.value, (int, bool)) and not isinstance(e.value, (str, bytes))
+    if isinstance(e, ast.Call) and isinstance(e.func, ast.Name):
+        return e.func.id in ("len", "int", "ord", "bool")
+    return False
 
 
 def nondet_contained(m, fnode, call, name):
